@@ -7,6 +7,7 @@ import DriverOps.Reduce
 import DriverOps.Quantile
 import DriverOps.Scan
 import DriverOps.Rechunk
+import DriverOps.Partial
 
 open Flox DriverOps
 
@@ -15,7 +16,8 @@ def ops : List (String × (List (List String) → String)) :=
   [ ("reduce", handleReduce), ("spec", handleReduce), ("kernel", handleReduce),
     ("quantile", handleQuantile), ("qkernel", handleQuantile),
     ("scan", handleScan),
-    ("rechunk-optimal", handleRechunk), ("rechunk-blockwise", handleRechunk), ("rechunk-cohorts", handleRechunk), ("rechunk-spec", handleRechunk) ]
+    ("rechunk-optimal", handleRechunk), ("rechunk-blockwise", handleRechunk), ("rechunk-cohorts", handleRechunk), ("rechunk-spec", handleRechunk),
+    ("partial", handlePartial) ]
 
 def handle (line : String) : String :=
   let secs := sections line
